@@ -16,6 +16,10 @@ CLAIMED = {
     "C05": ("SMT (z3 real arithmetic) over symbolic execution of the unit-conversion functions and every "
             "units-managed accessor for all ordered unit pairs; bounded programs of nested contexts / library "
             "calls executed on the real Manager", "4/C05", ""),
+    "C06": ("SMT (z3; exp/tanh and the bath's Fourier-transformed correlation function as uninterpreted functions with "
+            "instantiated relations) over symbolic execution of the Redfield/Foerster rate-matrix code and the "
+            "spectral-density / (1+coth)J code, all branches of the frequency cut-off explored", "4/C06",
+            "Clauses about numerical agreement with the golden-rule value / integration accuracy are not decided."),
     "C07": ("SMT (z3 nonlinear real arithmetic) over symbolic execution of apply / convert_2_tensor / transform / "
             "_OTI / _TTI / the time-dependent and time-independent Redfield implementations (spline integral as an "
             "uninterpreted congruent function)", "4/C07",
@@ -45,5 +49,5 @@ CLAIMED = {
 }
 _NYB = "check not built yet in this round (design in DESIGN.md section 4); not claimed until its harness is sound"
 NOT_APPLICABLE = {p: _NYB for p in
-                  ["C%02d" % i for i in range(2, 20) if i not in (2, 3, 4, 5, 7, 8, 13, 14, 16, 17, 19)]}
+                  ["C%02d" % i for i in range(2, 20) if i not in (2, 3, 4, 5, 6, 7, 8, 13, 14, 16, 17, 19)]}
 SOURCE_COMMITS = []
